@@ -22,7 +22,12 @@
                 contexts (comprehension / lambda), the indentation walk-up
                 `scope.start_pos[1] < column`, BaseName.parent (search_ancestor),
                 get_qualified_names (TreeNameDefinition route and value route).
-   Deviations of the code from the Reference, modelled as they are and named:
+   Deviations of the code from the Reference, modelled and named.  The last three were
+   defects of Script.get_context; each has a repair (tools/patches/c18_*.diff) and a
+   switch: the constant Fixed (a subset of {"AsyncColumn", "DedentCont", "LambdaInClass"})
+   says which repairs the modelled code contains.  Default = all three (the repaired
+   code); Fixed = {} is the what-if model of the old code, which must still violate
+   CtxStrict (sensitivity run of the harness).
      HeaderSelf   positions on a def/class header (after the first character of the
                   keyword) answer the definition itself, not the enclosing scope
                   (pinned by upstream test_context; the Reference tolerates both).
@@ -34,11 +39,10 @@
      LambdaInClass code inside a lambda written in a class body answers the scope around
                   the class (the lambda's name has no tree_name; its parent_context is
                   stripped of classes by FunctionValue.from_context).
-   AsyncColumn, DedentCont and LambdaInClass break the property text on code positions:
-   they are the known findings C18/ctx:*, excluded from CtxOK by the named predicate
-   KnownDeviation and demonstrated by the (expected-to-fail) invariant CtxStrict, whose
-   counterexample the harness reproduces on the real code.  CtxLiteral (expected to
-   fail as well) documents HeaderSelf.                                               *)
+   AsyncColumn, DedentCont and LambdaInClass break the property text on code positions
+   (findings C18/ctx:*, now "fixed").  A deviation that is NOT in Fixed is excused in
+   CtxOK by the named predicate KnownDeviation; with all three fixed CtxOK = CtxStrict.
+   CtxLiteral (expected to fail) documents HeaderSelf.                                *)
 EXTENDS Naturals, Sequences, FiniteSets, TLC, Json, SequencesExt
 
 ---------------------------------------------------------------------------
@@ -120,7 +124,8 @@ Shape(tab, lams, p, got) ==
 
 ---------------------------------------------------------------------------
 (* BOUNDED MODEL: programs *)
-CONSTANTS MaxItems, MaxDepth, MaxScopes, MaxExtras, Units, EmitMod, EmitRem
+CONSTANTS MaxItems, MaxDepth, MaxScopes, MaxExtras, Units, EmitMod, EmitRem,
+          Fixed      \* which get_context repairs the modelled code contains (see header)
 VARIABLES prog, unit
 vars == <<prog, unit>>
 
@@ -364,14 +369,20 @@ CreateContext(M, t) ==
 \* answers the scope around the class(es).
 RECURSIVE SkipClasses(_, _)
 SkipClasses(M, c) == IF c = 0 THEN 0 ELSE IF M.p[c].k = "class" THEN SkipClasses(M, M.enc[c]) ELSE c
-NamedContext(M, t) == IF t.inn = "lam" THEN SkipClasses(M, CreateContext(M, t)) ELSE CreateContext(M, t)
+\* Repair LambdaInClass: get_context leaves a lambda context through
+\* create_context(lambdef node), i.e. the context the lambda is written in.
+NamedContext(M, t) == IF t.inn = "lam" /\ "LambdaInClass" \notin Fixed
+                      THEN SkipClasses(M, CreateContext(M, t)) ELSE CreateContext(M, t)
 
-\* the indentation walk-up of get_context: leave every scope whose keyword does not
-\* start left of the cursor column (funcdef.start_pos is the `def` of an async def: AsyncColumn)
-RECURSIVE WalkUp(_, _, _)
-WalkUp(M, c, col) == IF c = 0 THEN 0
-                     ELSE IF KwCol(M.p[c]) < col THEN c
-                     ELSE WalkUp(M, M.enc[c], col)
+\* the indentation walk-up of get_context: leave every scope that does not start left
+\* of the cursor column.  Old code: scope = funcdef, whose start_pos is the `def` of an
+\* async def (AsyncColumn); repair: scope = the async_stmt / async_funcdef parent, which
+\* starts at `async`.  Repair DedentCont: a position on code (onCode) is never walked up.
+ScopeCol(it) == IF "AsyncColumn" \in Fixed THEN Base(it) ELSE KwCol(it)
+RECURSIVE WalkUp(_, _, _, _)
+WalkUp(M, c, col, onCode) == IF c = 0 THEN 0
+                             ELSE IF onCode \/ ScopeCol(M.p[c]) < col THEN c
+                             ELSE WalkUp(M, M.enc[c], col, onCode)
 
 DesignCtxFrom(M, pos, from) ==
   LET T    == M.T
@@ -382,7 +393,10 @@ DesignCtxFrom(M, pos, from) ==
       ctx  == IF n # 0 /\ PLt(KwPos(M, n), pos) /\ PLe(pos, LastChildStart(M, n))
               THEN n                                   \* special case: create_value(n).as_context()
               ELSE NamedContext(M, leaf)
-  IN WalkUp(M, ctx, pos[2])
+      \* on_code = leaf.start_pos <= pos and leaf.type not in ('newline', 'endmarker'),
+      \* taken from the leaf found first (before the previous-leaf substitution)
+      onCode == "DedentCont" \in Fixed /\ PLe(TStart(T[k0]), pos) /\ T[k0].c \notin NewlineClasses
+  IN WalkUp(M, ctx, pos[2], onCode)
 DesignCtx(M, pos) == DesignCtxFrom(M, pos, 1)
 
 \* BaseName.parent(): function/class/param -> tree_name.get_definition()
@@ -443,13 +457,16 @@ Pos(q) == <<q.l, q.c>>
 
 ---------------------------------------------------------------------------
 (* INVARIANTS: Design |= Reference *)
-KnownDeviations == {"async-def-column", "dedented-continuation", "lambda-in-class"}
+\* deviations the modelled code still has (none by default)
+KnownDeviations == (IF "AsyncColumn" \in Fixed THEN {} ELSE {"async-def-column"})
+              \cup (IF "DedentCont" \in Fixed THEN {} ELSE {"dedented-continuation"})
+              \cup (IF "LambdaInClass" \in Fixed THEN {} ELSE {"lambda-in-class"})
 KnownDeviation(M, pos, got) == Shape(M.tab, M.lams, pos, got) \in KnownDeviations
 
 CtxOKm(M) == \A q \in Positions(M) :
   (q.on => LET got == RowOf(M, DesignCtxFrom(M, Pos(q), q.k))
            IN IF got \in Allowed(M.tab, Pos(q)) THEN TRUE ELSE KnownDeviation(M, Pos(q), got)) = TRUE
-\* expected to FAIL: without the three known deviations
+\* holds iff the modelled code has no deviation left; must FAIL for Fixed = {} (old code)
 CtxStrictm(M) == \A q \in Positions(M) :
   (q.on => RowOf(M, DesignCtxFrom(M, Pos(q), q.k)) \in Allowed(M.tab, Pos(q))) = TRUE
 \* expected to FAIL: the literal reading without HeaderSelf
